@@ -171,7 +171,7 @@ PROPS["C13"] = {
                   "counters": {"agreed-accept/apx": 20000, "agreed-accept/iccma23": 20000, "cli_check_runs": 500,
                                "rejected/iccma23/content-after-blank-line": 1000, "rejected/iccma23/index-out-of-range": 1000,
                                "rejected/apx/undeclared-argument": 1000, "rejected/apx/arg-after-att": 300,
-                               "rejected-unlisted/iccma23/not-utf8": 1000, "rejected-unlisted/apx/not-utf8": 1000}},
+                               "rejected-unlisted/iccma23/not-utf8": 200, "rejected-unlisted/apx/not-utf8": 200, "rejected/iccma23/undecodable-byte-in-attack-line": 50}},
         "thorough": {"evaluations": 10000000, "distinct_nontrivial": 3000000, "counters": {}},
     },
 }
